@@ -5,6 +5,7 @@ import re
 from .. import AnalysisError
 from ..astutil import dotted, call_name, unparse, norm_text, walk_local_body, kwarg
 from ..consteval import Evaluator, Unknown
+from .. import rules as R
 from .. import regexast as rx
 
 EXPLANATION = (
@@ -82,6 +83,17 @@ def check(ctx):
         src = fa.sources(r.value)
         all_src_nodes.extend(src["nodes"])
         ctx.ob("C20-D1/DEP", param in src["params"], fa.site(r), "returned string depends on the amount", func=fi.qualname)
+    # trailing zeros: stripped, but one digit after the point always remains (the parser's grammar needs it)
+    for r in rets:
+        v = norm_text(r.value)
+        dot = fa.guarded(r, "coins.endswith('.')")[0]
+        nodot = fa.guarded(r, "not coins.endswith('.')")[0]
+        ok = (dot and v in ("coins + '0'",)) or (nodot and v == "coins")
+        ctx.ob("C20-D1/PAD", ok, fa.site(r), "a value that ends in '.' after stripping zeros gets one '0' back; any other is returned as is", func=fi.qualname,
+               key=f"C20-D1/PAD|{fi.qualname}|{'dot' if dot else 'nodot' if nodot else '?'}")
+        R.only_terms(ctx, "C20-D1/PAD", fa, r, ["coins.endswith('.')"], "…decided by that test alone", key=f"C20-D1/PAD|{fi.qualname}|only|{v}")
+    p = fa.path([fa.cfg.entry], [fa.cfg.exit], avoid=lambda n: n.kind == "return", include_exc=False)
+    ctx.ob("C20-D1/EXIT", p is None, fa.site(), "every path returns a string (none falls off the end returning None)", detail="" if p is None else fa.fmt_path(p), func=fi.qualname)
     # integer split by COIN
     split = [n for n in all_src_nodes if (isinstance(n, ast.Call) and call_name(n) == "divmod")
              or (isinstance(n, ast.BinOp) and isinstance(n.op, (ast.FloorDiv, ast.Mod)))]
@@ -222,6 +234,17 @@ def check(ctx):
                 avoid=lambda n: n.kind == "return", include_exc=False)
     ctx.ob("C20-D2/EXIT", p is None, ca.site(), "no path falls off the end returning None",
            detail="" if p is None else ca.fmt_path(p), func=cfi.qualname)
+    # refusals are exact: every string of the grammar converts
+    for x in raises:
+        in_first = ca.guarded(x, f"not isinstance({cparam}, str)")[0]
+        if in_first:
+            R.exact_gate(ctx, "C20-D2/GATE", ca, x, f"not isinstance({cparam}, str)", "the type refusal fires for non-strings only", key=f"C20-D2/GATE|{cfi.qualname}|type-exact")
+        else:
+            R.only_terms(ctx, "C20-D2/GATE", ca, x, [f"isinstance({cparam}, str)"] + [f"{nm} is None" for nm in sorted(mnames)] + sorted(mnames),
+                         "the format refusal depends on nothing but the match result", key=f"C20-D2/GATE|{cfi.qualname}|format-exact")
+    for r in crets:
+        R.only_terms(ctx, "C20-D2/GATE", ca, r, [f"isinstance({cparam}, str)"] + [f"{nm} is None" for nm in sorted(mnames)] + sorted(mnames),
+                     "every matching string is converted (no further condition)", key=f"C20-D2/GATE|{cfi.qualname}|accept-exact")
     # no float / Decimal / eval parsing
     badc = [c for c in ca.calls() if call_name(c) in ("float", "Decimal", "eval", "round")]
     ctx.ob("C20-D2/NUMDOM", not badc, ca.site(badc[0]) if badc else ca.site(), "parsing does not go through float/Decimal/round",
@@ -241,6 +264,12 @@ def check(ctx):
         for x in da.stmts(ast.Raise):
             k = dotted(x.exc.func) if isinstance(x.exc, ast.Call) else dotted(x.exc) if x.exc else None
             ctx.ob("C20-D3/EXIT", k in ("ValueError", None), da.site(x), "conversion failures stay ValueError", func=da.fi.qualname)
+        for h in [h for t in da.stmts(ast.Try) for h in t.handlers]:
+            # a handler that swallows the failure would make the function return None for an invalid amount
+            starts = [n for st in h.body[:1] for n in da.cfg_nodes(st)]
+            pth = da.path(starts, [da.cfg.exit], include_exc=False, allow_trivial=True) if starts else [None]
+            ctx.ob("C20-D3/EXIT", pth is None, da.site(h), "a failed conversion is never swallowed: the handler always raises", func=da.fi.qualname,
+                   key=f"C20-D3/EXIT|{da.fi.qualname}|handler-raises")
 
 
 def _grammar(body, flags, digits):
